@@ -25,6 +25,7 @@ def thresholds(tier):
        "list_element_objects": 3000, "method_port_objects": 200, "interface_objects": 500, "reelaborations": 400, "lock_unlock_histories": 300, "list_construction_designs": 60, "fieldname_designs": 60}
   if tier == "thorough":
     t = {k: v * 12 for k, v in t.items()}
+    t["list_construction_designs"] = 300; t["fieldname_designs"] = 300
   return t
 
 
@@ -461,11 +462,11 @@ def run_fieldname_case(sh, case):
 
 
 def run_shard(sh):
-  for case in range(6):
+  for case in range(6 if sh.tier == "quick" else 40):
     if sh.only is None: run_fieldname_case(sh, sh.idx * 100 + case)
   for case in range(4):
     if sh.only is None: run_adapter_case(sh, case)
-  for case in range(8):
+  for case in range(8 if sh.tier == "quick" else 50):
     if sh.only is None: run_listbuild_case(sh, sh.idx * 100 + case)
   for case in range(sh.params["cases"]):
     if sh.only is not None and str(case) != str(sh.only).strip('"'):
